@@ -167,6 +167,7 @@ package soyhtml
 // declares its own autoescape attribute. No command can switch it off for the
 // rest of a template.
 //@ func (*state).walk
+//@   at call (*state).errorf#5 assert[a-comment-node-in-a-template-body-is-not-an-unknown-node;C15,C06] !typeis(node, *ast.SoyDocNode)
 //@   like stateMethod
 //@   props C12 C08 C09 C03 C13
 //@   onlywriter[escaping-mode-set-only-on-entering-a-template;C03] soyhtml.state.autoescape
